@@ -257,6 +257,22 @@ func setCounterFactual(cf string) {
 		clipper.VerifSetJoinMode(1)
 	case "strict-join":
 		clipper.VerifSetJoinMode(2)
+	case "micro-guard":
+		clipper.VerifSetMicroFixMode(1)
+	case "no-micro":
+		clipper.VerifSetMicroFixMode(2)
+	case "strict-join+micro-guard":
+		clipper.VerifSetJoinMode(2)
+		clipper.VerifSetMicroFixMode(1)
+	case "keep-loops":
+		clipper.VerifSetKeepSplitLoops(true)
+	case "micro-guard+keep-loops":
+		clipper.VerifSetMicroFixMode(1)
+		clipper.VerifSetKeepSplitLoops(true)
+	case "strict-join+micro-guard+keep-loops":
+		clipper.VerifSetJoinMode(2)
+		clipper.VerifSetMicroFixMode(1)
+		clipper.VerifSetKeepSplitLoops(true)
 	case "no-fixself":
 		clipper.VerifSetSkipFixSelfIntersects(true)
 	case "no-join+no-fixself":
